@@ -62,7 +62,7 @@ Match ==
       [] Ev.a = "Xchg"     -> IF pc = "run_first" THEN RunFirst /\ Ev.r = "T" ELSE RunXchg /\ Ev.r = B(envk > 0)
       [] Ev.a = "RunEnd"   -> RunEnd /\ Ev.r = (IF termSeen THEN "local choice" ELSE "link disruption")
       [] Ev.a = "Listen"   -> CardListen /\ Ev.r = (IF ListenFails THEN "error"
-                                                     ELSE IF cfg.env = "reader" /\ ~gone THEN "reader" ELSE "none")
+                                                     ELSE IF cfg.env \in {"reader", "readerU"} /\ ~gone THEN "reader" ELSE "none")
       [] Ev.a = "Serve"    -> Serve /\ Ev.r = B(envk > 0)
       [] Ev.a = "Return"   -> Return /\ Ev.r = RetVal
       [] OTHER -> FALSE
